@@ -355,3 +355,37 @@ func VH_C03_flowAdapter() {
 	vAssert(s.posts == 1, "start-node-runs")
 	vCover("flow-adapter")
 }
+
+// stateless nodes: two node types without fields, used through pointers (&loadStep{}, &checkStep{}),
+// are two different nodes with their own transitions — although the runtime may give both the same
+// address
+type c03StepA struct{}
+type c03StepB struct{}
+
+var c03StepLog *[]int
+
+func (*c03StepA) Prep(ctx context.Context, s *SharedStore) (any, error) { *c03StepLog = append(*c03StepLog, 1); return nil, nil }
+func (*c03StepA) Exec(ctx context.Context, p any) (any, error)          { return nil, nil }
+func (*c03StepA) Post(ctx context.Context, s *SharedStore, p, e any) (Action, error) {
+	return "next", nil
+}
+func (*c03StepB) Prep(ctx context.Context, s *SharedStore) (any, error) { *c03StepLog = append(*c03StepLog, 2); return nil, nil }
+func (*c03StepB) Exec(ctx context.Context, p any) (any, error)          { return nil, nil }
+func (*c03StepB) Post(ctx context.Context, s *SharedStore, p, e any) (Action, error) {
+	return "next", nil
+}
+
+func VH_C03_statelessNodes() {
+	vUnwind(8)
+	var log []int
+	c03StepLog = &log
+	a, b := &c03StepA{}, &c03StepB{}
+	end := &c03NameProbe{act: "stop-here"}
+	flow := NewFlow(a)
+	flow.Connect(a, "next", b)
+	flow.Connect(b, "next", end)
+	err := flow.Run(vNewCtx(), NewSharedStore())
+	vAssert(err == nil, "routing-never-fails")
+	vAssert(len(log) == 2 && log[0] == 1 && log[1] == 2 && end.visits == 1, "visited-node-is-the-one-the-table-determines")
+	vCover("stateless-nodes")
+}
